@@ -387,8 +387,8 @@ def replay(w):
             if op == 'CenteredProduct':
                 kw['mean'] = mean if mean is not None else np.arange(5.0)
             pp = getattr(P.high_order, op)(**kw)
-            out = np.array(pp(X))
-            keep = out.copy()
+            out = pp(X)                      # the very array handed to the caller
+            keep = np.array(out, copy=True)
             pp(X2)
             pairs = pair_list(cfg, 5)
             mu = kw.get('mean', np.zeros(5))
